@@ -67,7 +67,10 @@ def _klass(rng, name, depth, tag):
         val = ""
         if pre.strip() in ("parameter", "constant") and not dims:
             val = " = %s" % _lit(rng, ty)
-        cmt = ' "%s %d"' % (tag, i) if rng.random() < 0.2 else ""
+        cmt = ""
+        if rng.random() < 0.3:
+            # description strings, some spanning lines (the lexer keeps the line break inside the string)
+            cmt = ' "%s %d"' % (tag, i) if rng.random() < 0.5 else ' "%s %d\n   continued %s"' % (tag, i, rng.choice(["a", "b b", ""]))
         decls.append("  %s%s %s%s%s%s%s;" % (pre, ty, v, dims, m, val, cmt))
         if ty == "Real" and not dims and pre.strip() in ("", "output", "discrete"):
             reals.append(v)
@@ -100,6 +103,54 @@ def gen_text(rng, idx):
     for k in range(rng.choice([1, 1, 1, 2])):
         out += _klass(rng, "M%d_%d" % (idx, k), 0, tag)
     return "\n".join(out) + "\n"
+
+
+VARIANTS = ["crlf", "nofinal", "final2", "cr_in_string", "ff_in_string", "ls_in_string", "nel_in_string", "vt_in_string",
+            "fs_in_string", "space_in_string", "case", "tab"]
+
+
+def variant(rng, txt, how):
+    """A near-identical text: differs from `txt` only in line terminators / white space / letter case — inside a
+    string literal where there is one, so that the parsed trees differ although the texts look alike.  Returns None
+    when the change does not apply."""
+    def in_string(repl):
+        # the first line break that lies inside a string literal
+        q = False
+        for i, ch in enumerate(txt):
+            if ch == '"':
+                q = not q
+            elif ch == "\n" and q:
+                return txt[:i] + repl + txt[i + 1:]
+        return None
+    if how == "crlf":
+        return txt.replace("\n", "\r\n")
+    if how == "nofinal":
+        return txt.rstrip("\n")
+    if how == "final2":
+        return txt + "\n"
+    if how == "cr_in_string":
+        return in_string("\r")
+    if how == "ff_in_string":
+        return in_string("\f")
+    if how == "ls_in_string":
+        return in_string("\u2028")
+    if how == "nel_in_string":
+        return in_string("\x85")
+    if how == "vt_in_string":
+        return in_string("\v")
+    if how == "fs_in_string":
+        return in_string("\x1c")
+    if how == "space_in_string":
+        return in_string(" \n")
+    if how == "tab":
+        return txt.replace("\n  ", "\n\t", 1)
+    if how == "case":
+        import re
+        m = re.search(r"\b([xyzuvwpqk])(\d)\b", txt)
+        if not m:
+            return None
+        return re.sub(r"\b%s\b" % m.group(0), m.group(1).upper() + m.group(2), txt)
+    return None
 
 
 def break_text(rng, txt, how=None):
